@@ -1,4 +1,5 @@
 import BoltonsVerif.C20.Proofs
+import BoltonsVerif.C20.SizeLog
 /-
 C20 — property theorems for the ThresholdCounter model (nothing but statements,
 their short derivations from `Proofs.lean`, and non-vacuity examples).
@@ -34,6 +35,37 @@ theorem absorb_total (s src : TC K) : (s.absorb src).total = s.total + src.commo
   rw [addAll_total]
   simp only [Op.flatten, length_expand, TC.items, TC.commonCount, List.map_map]
   rfl
+
+/-- `update(other counter)` continues the stream by additions in which every key occurs exactly as often
+    as the other counter REPORTS it (so all theorems about `reach` apply to histories with such calls) -/
+theorem absorb_is_stream (w : Nat) (hw : 1 ≤ w) (ks js : List K) :
+    ∃ extra : List K, (reach w ks).absorb (reach w js) = reach w (ks ++ extra)
+      ∧ ∀ k, extra.count k = (reach w js).get k := by
+  refine ⟨expand (reach w js).items, ?_, ?_⟩
+  · simp [TC.absorb, TC.step, Op.flatten, reach, addAll_append]
+  · intro k
+    rw [count_expand]
+    exact wsum_items k _ (inv_reach w hw js).nodup
+
+/-- the constructor on an exact threshold `p/q` in (0, 1): the bucket width is `⌊1/threshold⌋`
+    (`w·p ≤ q < (w+1)·p`), at least 1 - the hypothesis `1 ≤ w` of every theorem below - and
+    `2·w ≤ 2/threshold`; thresholds outside (0, 1) are rejected -/
+theorem threshold_width (p q : Nat) :
+    match (TC.ofThreshold p q : Option (TC K)) with
+    | some s => 0 < p ∧ p < q ∧ s = TC.init (q / p) ∧ 1 ≤ s.w ∧ s.w * p ≤ q ∧ q < (s.w + 1) * p
+    | none => p = 0 ∨ q ≤ p := by
+  unfold TC.ofThreshold
+  by_cases h : 0 < p ∧ p < q
+  · rw [if_pos h]
+    have h1 : 1 ≤ q / p := (Nat.le_div_iff_mul_le h.1).mpr (by omega)
+    have h2 : q / p * p ≤ q := Nat.div_mul_le_self q p
+    have h3 : q < (q / p + 1) * p := by
+      have := Nat.lt_mul_div_succ q h.1
+      rw [Nat.mul_comm]; exact this
+    exact ⟨h.1, h.2, rfl, h1, h2, h3⟩
+  · rw [if_neg h]
+    show p = 0 ∨ q ≤ p
+    omega
 
 /-- `total` equals the number of additions -/
 theorem total_eq_additions (w : Nat) (ks : List K) : (reach w ks).total = ks.length := by
@@ -77,6 +109,61 @@ theorem common_plus_uncommon (w : Nat) (hw : 1 ≤ w) (ks : List K) :
   have h : ((reach w ks).cm.map (·.cnt)).sum ≤ (reach w ks).total := (inv_reach w hw ks).sum_le
   unfold TC.uncommonCount TC.commonCount
   omega
+
+/-- `get_uncommon_count()` is exactly "the sum of counts for keys that were culled" (its docstring):
+    the counts thrown away by all compactions so far (`culled`, a ghost the code never computes) -/
+theorem uncommon_eq_culled (w : Nat) (ks : List K) :
+    (reach w ks).uncommonCount = culled (TC.init w : TC K) ks := by
+  have h := addAll_common (TC.init w : TC K) ks
+  have ht := total_eq_additions w ks
+  simp only [reach] at ht
+  unfold TC.uncommonCount
+  simp only [reach, ht]
+  simp only [TC.commonCount, TC.init, List.map_nil, List.sum_nil, Nat.zero_add] at h ⊢
+  omega
+
+/-- … and, key by key, it is the sum of all under-counts: over any duplicate-free list `U` of keys that
+    covers the stream, `get_uncommon_count() = Σ_{k ∈ U} (true count of k - reported count of k)` -/
+theorem uncommon_eq_shortfalls (w : Nat) (hw : 1 ≤ w) (ks : List K) (U : List K) (hU : U.Nodup)
+    (hks : ∀ k ∈ ks, k ∈ U) :
+    (reach w ks).uncommonCount = (U.map fun k => ks.count k - (reach w ks).get k).sum := by
+  have hi := inv_reach w hw ks
+  have hsub : ∀ k ∈ keysOf (reach w ks).cm, k ∈ U := by
+    intro k hk
+    apply hks
+    have h1 : lookup k (reach w ks).cm ≠ none := fun hn => (lookup_none_iff k _).mp hn hk
+    have h2 := hi.key k
+    cases hl : lookup k (reach w ks).cm with
+    | none => exact absurd hl h1
+    | some e =>
+      simp only [reach, hl] at h2
+      exact List.count_pos_iff.mp (by omega)
+  have hg : (U.map fun k => (reach w ks).get k).sum = ((reach w ks).cm.map (·.cnt)).sum :=
+    sum_get_eq_common U hU (reach w ks).total (reach w ks).w (reach w ks).bucket (reach w ks).cm
+      hi.nodup hsub
+  have hc := sum_count_eq_length U hU ks hks
+  have hs := sum_map_sub U (fun k => ks.count k) (fun k => (reach w ks).get k) (count_le_true w hw ks)
+  have ht := total_eq_additions w ks
+  unfold TC.uncommonCount TC.commonCount
+  rw [hs.1, hc, hg, ht]
+
+/-- `get_commonality()` is defined exactly when something was added, and then is a ratio in [0, 1]
+    whose complement is the uncommon share: `common / total` with `common ≤ total`,
+    `total - common = get_uncommon_count()` -/
+theorem commonality_spec (w : Nat) (hw : 1 ≤ w) (ks : List K) :
+    match (reach w ks).commonality with
+    | none => ks = []
+    | some (c, t) => 0 < t ∧ c ≤ t ∧ t = ks.length ∧ c = (reach w ks).commonCount
+        ∧ t - c = (reach w ks).uncommonCount := by
+  have ht := total_eq_additions w ks
+  have hc := common_plus_uncommon w hw ks
+  unfold TC.commonality
+  by_cases h0 : (reach w ks).total = 0
+  · simp only [h0, if_true]
+    rw [ht] at h0
+    exact List.length_eq_zero_iff.mp h0
+  · simp only [h0, if_false]
+    and_intros <;> first | exact ht | rfl | trivial | omega
 
 /-- no key is tracked twice -/
 theorem keys_nodup (w : Nat) (hw : 1 ≤ w) (ks : List K) : (reach w ks).keys.Nodup :=
@@ -132,6 +219,21 @@ theorem most_common_sorted (s : TC K) (n : Option Int) :
     · exact List.Pairwise.nil
     · exact (sortDesc_sorted s.items).sublist (List.take_sublist _ _)
 
+/-- what the correspondence compares of a `most_common()` result (`canon`: ties put in key order) does not
+    depend on the order among equal counts: EVERY list with the pairs of `items()` prints like the model's
+    answer - so an implementation is free in exactly what the statement leaves free -/
+theorem most_common_canonical (s : TC Nat) (r : List (Nat × Nat)) (h : r.Perm s.items) :
+    canon r = canon (s.mostCommon none) :=
+  canon_eq_of_perm _ _ (h.trans (most_common_perm_items s).symm)
+
+/-- … and the canonical form is itself a correct answer: the pairs of `items()` in descending count order -/
+theorem canon_is_most_common (s : TC Nat) :
+    (canon s.items).Perm s.items ∧ (canon s.items).Pairwise (fun a b => b.2 ≤ a.2) := by
+  refine ⟨canon_perm _, (canon_sorted s.items).imp ?_⟩
+  intro a b h
+  simp only [canonLe, Bool.or_eq_true, Bool.and_eq_true, decide_eq_true_eq, beq_iff_eq] at h
+  omega
+
 /-- `most_common(n)` is the length-`n` prefix of `most_common()` -/
 theorem most_common_take (s : TC K) (n : Int) (hn : 0 < n) :
     s.mostCommon (some n) = (s.mostCommon none).take n.toNat := by
@@ -152,6 +254,11 @@ def sizeWitness : List Nat :=
 theorem size_bound_false : ∃ (w : Nat) (ks : List Nat), 1 ≤ w ∧ 2 * w < (reach w ks).len :=
   ⟨24, sizeWitness, by decide, by decide +kernel⟩
 
+/-- the same in terms of the threshold `p/q = 1/24`: `len · p > 2 · q`, i.e. `len > 2/threshold` -/
+theorem size_bound_false_threshold : ∃ (p q : Nat) (s : TC Nat) (ks : List Nat),
+    TC.ofThreshold p q = some s ∧ 2 * q < (s.addAll ks).len * p :=
+  ⟨1, 24, TC.init 24, sizeWitness, rfl, by decide +kernel⟩
+
 /-- what does hold: never more tracked keys than additions, and the tracked
     counts never add up to more than the additions -/
 theorem size_bound_partial (w : Nat) (hw : 1 ≤ w) (ks : List K) :
@@ -160,11 +267,56 @@ theorem size_bound_partial (w : Nat) (hw : 1 ≤ w) (ks : List K) :
   have ht := total_eq_additions w ks
   exact ⟨by simpa [TC.len, ht] using hi.len_le, by simpa [TC.commonCount, ht] using hi.sum_le⟩
 
+/-- the space bound that DOES hold (Manku & Motwani's `(1/ε)·log(εN)`, here with `w = ⌊1/ε⌋ ≤ 1/ε` and the
+    binary logarithm): after `N` additions at most `w · (⌊log2(⌊N/w⌋ + 1)⌋ + 1)` keys are tracked.
+    Full clause of the statement ("never exceeds 2/threshold") is false: `size_bound_false`. -/
+theorem size_bound_log (w : Nat) (hw : 1 ≤ w) (ks : List K) :
+    (reach w ks).len ≤ w * ((ks.length / w + 1).log2 + 1) := by
+  have h := len_le_log_of_inv2 _ (inv2_reach w hw ks)
+  have hww : (reach w ks).w = w := by simp [reach, addAll_w, TC.init]
+  have ht := total_eq_additions w ks
+  simp only [reach] at hww ht
+  rw [hww, ht] at h
+  exact h
+
+/-- … in particular the `2/threshold` clause does hold during the first three buckets
+    (`N < 3·w` additions): it can only fail later -/
+theorem size_bound_early (w : Nat) (hw : 1 ≤ w) (ks : List K) (hN : ks.length < 3 * w) :
+    (reach w ks).len ≤ 2 * w := by
+  have h := size_bound_log w hw ks
+  have hq : ks.length / w < 3 := (Nat.div_lt_iff_lt_mul (by omega)).mpr hN
+  have hl : (ks.length / w + 1).log2 ≤ 1 := by
+    generalize ks.length / w = q at hq ⊢
+    have h4 : q + 1 < 2 ^ 2 := by show q + 1 < 4; omega
+    have := (Nat.log2_lt (by omega)).mpr h4
+    omega
+  calc (reach w ks).len ≤ w * ((ks.length / w + 1).log2 + 1) := h
+    _ ≤ w * 2 := Nat.mul_le_mul_left _ (by omega)
+    _ = 2 * w := Nat.mul_comm ..
+
 /-! non-vacuity: a concrete stream on which keys are evicted and under-counted -/
 example : (reach 3 [0, 1, 1, 0, 2, 2, 0]).items = [(2, 2), (0, 1)] := by decide
 example : ((reach 3 [0, 1, 1, 0, 2, 2, 0]).get 0, [0, 1, 1, 0, 2, 2, 0].count 0,
            (reach 3 [0, 1, 1, 0, 2, 2, 0]).total / 3) = (1, 3, 2) := by decide
 example : (reach 24 sizeWitness).len = 49 := by decide +kernel
+-- the logarithmic bound on the witness of `size_bound_false`: 49 ≤ 24 · (log2(95/24 + 1) + 1) = 72
+example : 24 * ((sizeWitness.length / 24 + 1).log2 + 1) = 72 := by decide +kernel
+-- … and it is attained: w = 1, one addition, one tracked key = 1 · (log2 2 + 1) - 1 … exactly w·1 for N < w
+example : (reach 3 [0, 1]).len = 2 ∧ 3 * (([0, 1].length / 3 + 1).log2 + 1) = 3 := by decide
+-- culled counts: the stream above loses 1 (key 1 twice... ) - total 7, common 3, uncommon 4 = culled
+example : ((reach 3 [0, 1, 1, 0, 2, 2, 0]).uncommonCount, culled (TC.init 3 : TC Nat) [0, 1, 1, 0, 2, 2, 0],
+           (reach 3 [0, 1, 1, 0, 2, 2, 0]).commonality) = (4, 4, some (3, 7)) := by decide
+example : (reach 3 ([] : List Nat)).commonality = none := by decide
+-- thresholds 3/10 and 0.34 = 17/50 have width 3 and 2; 1/1 and 0/5 are rejected
+example : ((TC.ofThreshold 3 10 : Option (TC Nat)).map (·.w), (TC.ofThreshold 17 50 : Option (TC Nat)).map (·.w),
+           (TC.ofThreshold 1 1 : Option (TC Nat)).map (·.w), (TC.ofThreshold 0 5 : Option (TC Nat)).map (·.w))
+    = (some 3, some 2, none, none) := by decide
+-- per-key shortfalls of that stream over U = [0, 1, 2, 3]: (3-1) + (2-0) + (2-2) + 0 = 4
+example : ([0, 1, 2, 3].map fun k => [0, 1, 1, 0, 2, 2, 0].count k - (reach 3 [0, 1, 1, 0, 2, 2, 0]).get k)
+    = [2, 2, 0, 0] := by decide
+-- ties print in key order whatever order the answer had; the cut of most_common(2) names only the key above it
+example : (canon [(5, 2), (1, 2), (7, 3)], canonTop [(7, 3), (5, 2)]) = ([(7, 3), (1, 2), (5, 2)], [(some 7, 3), (none, 2)]) := by
+  decide
 -- a key given positionally (3) and as a keyword (2) in ONE update call is counted 5 times
 example : ((TC.run 9 [Op.updateMapKw [(0, 3), (1, 1)] [(0, 2)]]).get 0,
            (TC.run 9 [Op.updateMapKw [(0, 3), (1, 1)] [(0, 2)]]).total) = (5, 6) := by decide
